@@ -79,6 +79,15 @@ fn run_t<T: Elem>(c: &Case, tsan: bool) -> Outcome {
         Ring::Stream(w, r) => (Prod::S(w), Cons::S(r)),
     };
     let total = c.total;
+    // Consecutive empty-handed iterations of each side. Both sides empty-handed
+    // at once (writer sees no space, reader sees no data) for many iterations
+    // cannot happen in a correct ring: it is a logical deadlock, not slowness.
+    let prod_idle = Arc::new(AtomicU64::new(0));
+    let cons_idle = Arc::new(AtomicU64::new(0));
+    let (pi2, ci2) = (prod_idle.clone(), cons_idle.clone());
+    let (pi3, ci3) = (prod_idle.clone(), cons_idle.clone());
+    let prod_done = Arc::new(AtomicBool::new(false));
+    let (pd2, pd3) = (prod_done.clone(), prod_done.clone());
     let done = Arc::new(AtomicBool::new(false));
     let waits_short = Arc::new(AtomicU64::new(0));
     let seed = c.seed;
@@ -90,6 +99,9 @@ fn run_t<T: Elem>(c: &Case, tsan: bool) -> Outcome {
             let mut rng = Rng::new(hmix(seed, 1));
             let mut next: u64 = 0;
             while (next as usize) < total {
+                if d2.load(Ordering::SeqCst) {
+                    return Err("stopped: the consumer gave up".into());
+                }
                 jitter(&mut rng, tsan);
                 let mut wb = match &p {
                     Prod::Raw(b) => b.clone().write_buf(),
@@ -102,6 +114,10 @@ fn run_t<T: Elem>(c: &Case, tsan: bool) -> Outcome {
                 }
                 if len == 0 {
                     drop(wb);
+                    let mine = pi2.fetch_add(1, Ordering::SeqCst) + 1;
+                    if mine > 25 && ci2.load(Ordering::SeqCst) > 25 {
+                        return Err("deadlock: the writer is offered no space while the reader is offered no data (25+ consecutive waits on both sides)".into());
+                    }
                     let need = match rng.below(4) {
                         0 => 1,
                         1 => cap,
@@ -122,6 +138,7 @@ fn run_t<T: Elem>(c: &Case, tsan: bool) -> Outcome {
                     }
                     continue;
                 }
+                pi2.store(0, Ordering::SeqCst);
                 let k = match rng.below(8) {
                     0 => len,
                     1 => 1,
@@ -153,7 +170,7 @@ fn run_t<T: Elem>(c: &Case, tsan: bool) -> Outcome {
                     }
                 }
             }
-            d2.store(true, Ordering::SeqCst);
+            pd2.store(true, Ordering::SeqCst);
             drop(p);
             Ok(())
         })
@@ -180,6 +197,10 @@ fn run_t<T: Elem>(c: &Case, tsan: bool) -> Outcome {
                     drop(rb);
                     if expect as usize >= total {
                         return Ok(expect as usize);
+                    }
+                    let mine = ci3.fetch_add(1, Ordering::SeqCst) + 1;
+                    if mine > 25 && pi3.load(Ordering::SeqCst) > 25 {
+                        return Err(format!("deadlock: the reader is offered no data while the writer is offered no space, after {expect} of {total} samples"));
                     }
                     let need = match rng.below(4) {
                         0 => 1,
@@ -219,12 +240,16 @@ fn run_t<T: Elem>(c: &Case, tsan: bool) -> Outcome {
                         return Ok(expect as usize);
                     }
                     idle += 1;
-                    if idle > 200_000 {
-                        return Err("consumer made no progress".into());
+                    if idle > 5 && pd3.load(Ordering::SeqCst) {
+                        return Err(format!("the producer committed all {total} samples and finished, the reader is offered nothing after {expect}"));
+                    }
+                    if idle > 3000 {
+                        return Err("consumer made no progress in 3000 waits".into());
                     }
                     continue;
                 }
                 idle = 0;
+                ci3.store(0, Ordering::SeqCst);
                 // verify the whole window
                 let check = |from: u64, s: &[T]| -> Result<(), String> {
                     for (i, v) in s.iter().enumerate() {
@@ -257,13 +282,15 @@ fn run_t<T: Elem>(c: &Case, tsan: bool) -> Outcome {
             }
         })
         .unwrap();
-    let pr = producer.join();
     let cr = consumer.join();
+    done.store(true, Ordering::SeqCst);
+    let pr = producer.join();
     let mut findings = Vec::new();
     let mut transferred = 0;
     match pr {
         Ok(Ok(())) => {}
-        Ok(Err(e)) => findings.push(("producer-protocol-error".to_string(), e)),
+        Ok(Err(e)) if e.starts_with("stopped:") => {}
+        Ok(Err(e)) => findings.push((if e.starts_with("deadlock") { "deadlock".to_string() } else { "producer-protocol-error".to_string() }, e)),
         Err(p) => findings.push((format!("producer-panic|{}", sig_of_msg(&panic_msg(&p))), panic_msg(&p))),
     }
     match cr {
@@ -273,10 +300,9 @@ fn run_t<T: Elem>(c: &Case, tsan: bool) -> Outcome {
                 findings.push(("count-mismatch".into(), format!("consumer received {n} of {total}")));
             }
         }
-        Ok(Err(e)) => findings.push(("sequence-oracle".to_string(), e)),
+        Ok(Err(e)) => findings.push((if e.starts_with("deadlock") { "deadlock".to_string() } else { "sequence-oracle".to_string() }, e)),
         Err(p) => findings.push((format!("consumer-panic|{}", sig_of_msg(&panic_msg(&p))), panic_msg(&p))),
     }
-    let _ = done;
     // Offline monitors over the event log.
     let log = rec::take();
     let mut interleaving = 0xcbf29ce484222325u64;
